@@ -49,18 +49,22 @@ type unit struct {
 }
 
 type scenario struct {
-	id      int
-	mode    string
-	start   int64
-	units   []unit
-	bytes   []byte // whole stream from start
-	crash   []int
-	idle    bool // restart twice without traffic after a crash
-	cluster bool
-	stall   int  // cluster: the transaction of this unit (0-based, 0 = none) is held back ~130 ms before the target sees its first command
-	otherDb bool // the (standalone) target holds a key of its own in another database
-	filter  bool // a key filter is configured (prefix black list "drop:"): multi-key commands are forwarded restricted to the accepted keys
-	nostart bool // skip the start-up recovery (16384 slot reads on a cluster): C18 cases only judge admission
+	id       int
+	mode     string
+	start    int64
+	units    []unit
+	bytes    []byte // whole stream from start
+	crash    []int
+	idle     bool // restart twice without traffic after a crash
+	cluster  bool
+	stall    int // cluster: the transaction of this unit (0-based, 0 = none) is held back ~130 ms before the target sees its first command
+	resyncAt int // sync mode on the cluster fake, > 0: after this many units a full resynchronisation of the same history completes
+	// (root position at that unit's end), the link restarts, the remaining units follow, the link restarts again
+	snapAt  int   // the snapshot of that resynchronisation was taken at the end of this unit (> resyncAt: the source had moved on)
+	upto    int64 // run(): feed the stream up to this offset only (0 = all of it)
+	otherDb bool  // the (standalone) target holds a key of its own in another database
+	filter  bool  // a key filter is configured (prefix black list "drop:"): multi-key commands are forwarded restricted to the accepted keys
+	nostart bool  // skip the start-up recovery (16384 slot reads on a cluster): C18 cases only judge admission
 }
 
 // caseLine is one unit enumerated by spec/UnitRoute.tla with the spec's verdict
@@ -302,6 +306,10 @@ func genScenario(r *hx.Rng, id int, maxUnits int, cluster bool, refuse string) *
 		}
 	}
 	sc.otherDb = !cluster && r.Chance(35)
+	if cluster && sc.mode == "sync" && refuse == "" && len(sc.units) >= 3 && r.Chance(50) {
+		sc.resyncAt = 1 + r.Intn(len(sc.units)-2)
+		sc.snapAt = sc.resyncAt + 1 + r.Intn(len(sc.units)-1-sc.resyncAt)
+	}
 	if cluster && len(sc.units) >= 3 && sc.mode == "parallel" && r.Chance(60) {
 		sc.stall = 1 + r.Intn(len(sc.units)-2)
 	}
@@ -549,7 +557,7 @@ func (rn *runner) project(e fakeredis.Entry) map[string]interface{} {
 	case checkpoint.IsBisyncCommitIndexKey(key) && e.Name == "zrem":
 		ev["t"] = "zrem"
 		return ev
-	case key == cpName:
+	case key == cpName, key == config.CheckpointKeyHashKey:
 		ev["t"] = "rootother"
 		return ev
 	}
@@ -649,7 +657,14 @@ func (rn *runner) run(crashAfter int) (died bool, cont bool) {
 	ctx, cancel := context.WithCancel(context.Background())
 	defer cancel()
 	feed := hx.NewFeedReader()
-	feed.Feed(sc.bytes[sp.Offset-sc.start:])
+	end := sc.start + int64(len(sc.bytes))
+	if sc.upto > 0 {
+		end = sc.upto
+	}
+	if sp.Offset > end {
+		return false, false
+	}
+	feed.Feed(sc.bytes[sp.Offset-sc.start : end-sc.start])
 	if crashAfter >= 0 {
 		rn.tg.crashAfter(crashAfter)
 	}
@@ -657,6 +672,9 @@ func (rn *runner) run(crashAfter int) (died bool, cont bool) {
 	go func() { done <- ro.Send(ctx, hx.NewChanReader(feed, true, runID, sp.Offset, -1)) }()
 	want, refusing := 0, false
 	for _, u := range sc.units {
+		if u.E > end {
+			continue
+		}
 		if u.Ok {
 			want += len(u.Cmds)
 		} else {
@@ -726,7 +744,9 @@ func (rn *runner) run(crashAfter int) (died bool, cont bool) {
 		return true, true
 	}
 	rn.tg.crashAfter(-1)
-	rn.tr.Emit(map[string]interface{}{"ev": "Quiesce"})
+	if sc.upto == 0 {
+		rn.tr.Emit(map[string]interface{}{"ev": "Quiesce"})
+	}
 	return false, true
 }
 
@@ -815,6 +835,36 @@ func runScenario(sc *scenario, tr *hx.Trace) (recv int, reqs int) {
 	rn.waitNoConns()
 	rn.flushRaw()
 	base := tg.recv()
+	if sc.resyncAt > 0 && sc.snapAt > sc.resyncAt && sc.snapAt < len(sc.units) {
+		// units 1..j, then a completed full resynchronisation of the same history at unit j's end (the position is voided, the
+		// snapshot - which holds those units - is replayed, the position of the completed full sync is stored), a restart, the
+		// remaining units, and two more restarts: a sync link resumes exactly behind its last committed unit
+		sc.upto = sc.units[sc.resyncAt-1].E
+		if _, cont := rn.run(-1); !cont {
+			return tg.recv() - base, rn.nReq
+		}
+		sc.upto = 0
+		cli, err := client.NewRedis(rn.redisCfg())
+		if err != nil {
+			hx.Fatal("%v", err)
+		}
+		if err := checkpoint.ResetCheckpoint(cli, cpName, []string{runID, runID}); err != nil {
+			hx.Fatal("resync reset: %v", err)
+		}
+		if err := checkpoint.SetCheckpoint(cli, &checkpoint.CheckpointInfo{Key: cpName, RunId: runID, Offset: sc.units[sc.snapAt-1].E, Version: config.Version}); err != nil {
+			hx.Fatal("resync: %v", err)
+		}
+		cli.Close()
+		rn.waitNoConns()
+		rn.flushRaw()
+		// the units up to the snapshot's offset are on the target as part of the snapshot
+		rn.tr.Emit(map[string]interface{}{"ev": "SnapshotApplied", "off": sc.units[sc.snapAt-1].E})
+		if _, cont := rn.run(-1); cont {
+			rn.startPoint()
+			rn.startPoint()
+		}
+		return tg.recv() - base, rn.nReq
+	}
 	for r := 0; r < 6; r++ {
 		crash := -1
 		if r < len(sc.crash) {
@@ -930,6 +980,7 @@ func main() {
 			s := *base
 			id += *shards
 			s.id = id
+			s.resyncAt = 0
 			s.crash = []int{k}
 			if r.Chance(25) {
 				s.crash = append(s.crash, 1+r.Intn(total))
